@@ -24,6 +24,7 @@ type gen struct {
 type seq struct {
 	frames  [][]byte
 	classes []string
+	ring    int
 }
 
 // l2 prepends the link header of this configuration's link mode to an L3 packet.
@@ -392,8 +393,15 @@ func (c *gen) fixedSequences() []seq {
 		for i := range cl {
 			cl[i] = classes
 		}
-		out = append(out, seq{frames, cl})
+		out = append(out, seq{frames, cl, 0})
 	}
+	// the same memory is handed out again (zero-copy ring): two replies from different hosts, the second
+	// landing in the slot of the first, with 0..2 frames that are not reported in between
+	junk := func() []byte { return c.l2(0x88cc, c.payload(30)) }
+	out = append(out, seq{[][]byte{c.valid(), c.valid()}, []string{"ring-valid", "ring-valid"}, 1})
+	out = append(out, seq{[][]byte{c.valid(), c.valid(), c.valid()}, []string{"ring-valid", "ring-valid", "ring-valid"}, 1})
+	out = append(out, seq{[][]byte{c.valid(), junk(), c.valid()}, []string{"ring-valid", "ring-junk", "ring-valid"}, 2})
+	out = append(out, seq{[][]byte{c.valid(), junk(), junk(), c.valid()}, []string{"ring-valid", "ring-junk", "ring-junk", "ring-valid"}, 3})
 	bare := func(proto uint8) []byte {
 		return fr.IP(fr.IPOpt{TotalLen: -1, TTL: 77, Proto: proto, Src: [4]byte{7, 7, 7, 7}, Dst: [4]byte{192, 168, 0, 9}}, nil)
 	}
